@@ -3,6 +3,7 @@ Core-only so that it links as a `lean_exe`. -/
 import OsmoVerif.Model.DrvNum
 import OsmoVerif.Model.DrvMath
 import OsmoVerif.Model.DrvMint
+import OsmoVerif.Model.DrvGamm
 import OsmoVerif.Model.DrvCL
 import OsmoVerif.Model.DrvCLPool
 import OsmoVerif.Model.DrvSumTree
@@ -15,6 +16,7 @@ open OsmoVerif
 
 structure St where
   mint : Mint.DrvState := Mint.initMint
+  gamm : Gamm.State := Gamm.initGamm
   clp : CLPool.Pool := CLPool.initCLPool
   sumtree : SumTree.Store := SumTree.initSumTree
   epochs : Epochs.State := Epochs.initEpochs
@@ -36,6 +38,7 @@ def step (st : St) (line : String) : St × String :=
   | "clp" :: op :: args => let (c, o) := CLPool.stepCLPool st.clp op args; ({ st with clp := c }, o)
   | "auth" :: op :: args => let (a, o) := Auth.stepAuth st.auth op args; ({ st with auth := a }, o)
   | "lockup" :: op :: args => let (m, o) := Lockup.stepLockup st.lockup op args; ({ st with lockup := m }, o)
+  | "gamm" :: op :: args => let (x, o) := Gamm.stepGamm st.gamm op args; ({ st with gamm := x }, o)
   | "mint" :: op :: args => let (m, o) := Mint.stepMint st.mint op args; ({ st with mint := m }, o)
   | _ => (st, "bad-op")
 
